@@ -8,7 +8,7 @@ COMMON_TRUSTED = [
 ]
 
 PROPS = {}
-HOOK_COMMITS = ["f0964c3"]
+HOOK_COMMITS = ["f0964c3", "f0ee85c"]
 NOT_BUILT_REASON = "no check registered yet: the Lean model/theorems and the correspondence harness for this property have not been built in this session (work in progress, see DESIGN.md §12); the technique applies"
 
 PROPS["C05"] = {
@@ -110,4 +110,22 @@ PROPS["C12"] = {
     ],
     "assumptions": ["hypothesis of ghash_single_block_partial: multiplication by the hash key H is injective (holds for every H != 0 in the field GF(2^128))"],
     "not_proved": ["GF(2^128) no-zero-divisors for the bit-level mulGF (T3)", "byte-level Go multiplication = Spec.mulGF as a theorem (correspondence only)"],
+}
+
+PROPS["C07"] = {
+    "modules": ["Gmsm.Props.C07"],
+    "theorems": [
+        "Props.C07.seq_step_encrypt", "Props.C07.seq_step_decrypt", "Props.C07.nonce_injective", "Props.C07.aad_inj",
+        "Props.C07.prefix_delivery", "Props.C07.sticky_error", "Props.C07.honest_delivery", "Props.C07.sm4gcm_correct",
+        "Props.C07.decrypt_encrypt_gcm", "Gmsm.i2ospR_inj",
+    ],
+    "gen_items": [],
+    "level": "proof",
+    "claim": "Two layers. (1) An abstract authenticated channel over an AEAD with an authenticity hypothesis (ideal primitive, never an axiom): for EVERY record sequence an adversary feeds the receiver the delivered payloads are a prefix of those sent, the first rejected record is fatal, an untouched stream is delivered in full - induction over the receiver's input; it rests on the proved injectivity of seq||type||version||length and of the GCM nonce salt||seq. (2) A byte-exact Lean model of halfConn.encrypt/decrypt, Conn.Write (1/n-1 split, dynamic record sizing, explicit IV / nonce) and Conn.Read/readRecord with real SM4/HMAC-SM3/GCM: sequence numbers step by exactly one, the GCM record round-trips; it predicts the wire bytes of the real code and the outcome (delivered bytes, alert) for tampered streams, compared on every run.",
+    "note": "Trusted: Lean kernel; authenticity of the AEAD / MAC is a hypothesis of prefix_delivery (INT-CTXT for the sender's sealed set); the CBC+HMAC suite is covered by the byte-exact model and correspondence, its round-trip and the Go bit-trick extractPadding are compared (expad) but not proved; crypto/cipher CBC/GCM and crypto/hmac are stdlib.",
+    "trusted_base": [
+        "Model.Record mirrors gmtls/conn.go halfConn.encrypt/decrypt, writeRecordLocked, maxPayloadSizeForWrite, Write, readRecord, Read for version 0x0101; tie = recwrite (exact wire bytes incl. explicit IVs from Config.Rand and nonce = seq) and recread (delivered bytes + alert for bit flips in every record region, truncation, extension, swap, duplicate, drop, injection, cross-connection replay, header edits), hook gmtls.VerifEstablished",
+    ],
+    "assumptions": ["Authentic AEAD: anything that opens under (nonce, additional data) was sealed by the sender under exactly those (hypothesis of prefix_delivery)", "fewer than 2^64 records per direction (the code panics instead of wrapping)"],
+    "not_proved": ["decrypt_encrypt for the CBC+HMAC-SM3 suite as a theorem", "extractPadding (constant-time bit tricks) = its specification as a theorem (T1 of the design; compared for all pad lengths 0..255 by expad)", "prefix_delivery instantiated for MAC-then-encrypt CBC (the abstract theorem is stated for AEAD-shaped protection)"],
 }
